@@ -137,7 +137,10 @@ def run(ctx):
     seen = set()
     units = []
     seen11 = set()
-    for tu in ctx.units(lambda n: n.startswith("core") or n.startswith("repo_ct") or n.startswith("coro") or n == "cpp11"):
+    def want(n):
+        return n.startswith("core") or n.startswith("repo_ct") or n.startswith("coro") or n == "cpp11"
+    want.with_cpp11 = True
+    for tu in ctx.units(want):
         if tu.find(A["dispatch"]) and tu.name != "cpp11":
             c09b(ctx, tu)
         c09c(ctx, tu, seen11 if tu.name == "cpp11" else seen)
